@@ -41,7 +41,8 @@ Inductive ostep :=
 | Format        (* lines = obj.format_for_mcnp_input(self.mcnp_version) *)
 | Warn          (* if warning_catch: ... (bookkeeping on warning objects, no I/O) *)
 | WriteLines.   (* for line in lines: fh.write(line + "\n") *)
-Inductive cond := Always | IfOk | IfErr.   (* __exit__: exc_type is None / is not None *)
+(* __exit__: exc_type is None / is not None / the name holding the temporary's path is not None *)
+Inductive cond := Always | IfOk | IfErr | IfTemp.
 Inductive step :=
 | GuardExists            (* if os.path.isfile(path) and overwrite is not True: raise FileExistsError *)
 | GuardIsDir             (* if os.path.isdir(path): raise IsADirectoryError *)
@@ -53,6 +54,7 @@ Inductive step :=
 | Close                  (* self._fh.__exit__(...) ; self._fh = None *)
 | Replace (c : cond)     (* os.replace(temp, path) *)
 | Remove (c : cond) (t : target)   (* os.remove(<t>) *)
+| Forget (c : cond)      (* temp_path = None: the temporary's path is forgotten (it has been moved) *)
 | HandleWarnings.        (* self._handle_warnings(warning_catch), after the with block *)
 
 (* name of the temporary file: os.path.join(directory, f".{base}.{os.getpid()}.tmp") *)
@@ -62,7 +64,8 @@ Record writer := mkwriter {
   w_temp : list part;    (* template of the temporary's base name; [] when there is no temporary *)
   w_open : list step;    (* MCNP_InputFile.open("w"), in source order; an exception here skips __exit__ *)
   w_body : list step;    (* body of the with block of write_to_file *)
-  w_exit : list step;    (* MCNP_InputFile.__exit__ *)
+  w_exit : list step;    (* MCNP_InputFile.__exit__ (the `try` part when it is a try/finally) *)
+  w_final : list step;   (* the `finally` part of __exit__; [] when there is none *)
   w_post : list step     (* statements of write_to_file after the with block *)
 }.
 
@@ -94,8 +97,9 @@ Definition no_faults : adversary :=
 Record env := mkenv {
   e_dest : path; e_temp : path; e_ov : bool; e_prob : problem; e_adv : adversary }.
 
+(* [pend]: the name through which __exit__ reaches the temporary still holds its path *)
 Record state := mkstate {
-  fs : fsys; handle : option target; cur : list string; nfmt : nat; nwr : nat }.
+  fs : fsys; handle : option target; cur : list string; nfmt : nat; nwr : nat; pend : bool }.
 
 Definition pth (E : env) (t : target) : path :=
   match t with Dest => e_dest E | Temp => e_temp E end.
@@ -116,8 +120,8 @@ Definition append_at (E : env) (f : fsys) (h : option target) (s : string) : fsy
 Definition do_write (E : env) (s : string) (st : state) : state * result :=
   let j := nwr st in
   if a_wr (e_adv E) j
-  then (mkstate (fs st) (handle st) (cur st) (nfmt st) (S j), Err OSError)
-  else (mkstate (append_at E (fs st) (handle st) s) (handle st) (cur st) (nfmt st) (S j), Ok).
+  then (mkstate (fs st) (handle st) (cur st) (nfmt st) (S j) (pend st), Err OSError)
+  else (mkstate (append_at E (fs st) (handle st) s) (handle st) (cur st) (nfmt st) (S j) (pend st), Ok).
 
 Fixpoint write_lines (E : env) (ls : list string) (st : state) : state * result :=
   match ls with
@@ -131,11 +135,11 @@ Fixpoint write_lines (E : env) (ls : list string) (st : state) : state * result 
 Definition do_format (E : env) (o : object) (st : state) : state * result :=
   let k := nfmt st in
   match o with
-  | None => (mkstate (fs st) (handle st) (cur st) (S k) (nwr st), Err IllegalState)
+  | None => (mkstate (fs st) (handle st) (cur st) (S k) (nwr st) (pend st), Err IllegalState)
   | Some ls =>
       if a_fmt (e_adv E) k
-      then (mkstate (fs st) (handle st) (cur st) (S k) (nwr st), Err IllegalState)
-      else (mkstate (fs st) (handle st) ls (S k) (nwr st), Ok)
+      then (mkstate (fs st) (handle st) (cur st) (S k) (nwr st) (pend st), Err IllegalState)
+      else (mkstate (fs st) (handle st) ls (S k) (nwr st) (pend st), Ok)
   end.
 
 Definition exec_ostep (E : env) (o : object) (os : ostep) (st : state) : state * result :=
@@ -163,11 +167,13 @@ Fixpoint exec_objs (E : env) (body : list ostep) (objs : list object) (st : stat
               end
   end.
 
-Definition cond_holds (c : cond) (ok : bool) : bool :=
-  match c with Always => true | IfOk => ok | IfErr => negb ok end.
+Definition cond_holds (c : cond) (ok pd : bool) : bool :=
+  match c with Always => true | IfOk => ok | IfErr => negb ok | IfTemp => pd end.
 
 Definition with_fs (st : state) (f : fsys) (h : option target) : state :=
-  mkstate f h (cur st) (nfmt st) (nwr st).
+  mkstate f h (cur st) (nfmt st) (nwr st) (pend st).
+Definition with_pend (st : state) (b : bool) : state :=
+  mkstate (fs st) (handle st) (cur st) (nfmt st) (nwr st) b.
 
 (* [ok]: no exception is propagating (matters inside __exit__ only) *)
 Definition exec_step (E : env) (ok : bool) (s : step) (st : state) : state * result :=
@@ -186,7 +192,8 @@ Definition exec_step (E : env) (ok : bool) (s : step) (st : state) : state * res
       match fs st (pth E tg) with
       | Dir => (st, Err IsADirectoryError)
       | _ => if a_open (e_adv E) then (st, Err OSError)
-             else (with_fs st (upd (fs st) (pth E tg) (File "")) (Some tg), Ok)
+             else (with_pend (with_fs st (upd (fs st) (pth E tg) (File "")) (Some tg))
+                              (match tg with Temp => true | Dest => pend st end), Ok)
       end
   | CopyMode => (st, Ok)
   | Loop sc body => exec_objs E body (p_objs (e_prob E) sc) st
@@ -199,7 +206,7 @@ Definition exec_step (E : env) (ok : bool) (s : step) (st : state) : state * res
   | Close =>
       (with_fs st (fs st) None, if a_close (e_adv E) then Err OSError else Ok)
   | Replace c =>
-      if cond_holds c ok then
+      if cond_holds c ok (pend st) then
         match handle st with
         | Some _ => (st, Err ModelStuck)       (* moving a file that is still open: not modelled *)
         | None =>
@@ -215,7 +222,7 @@ Definition exec_step (E : env) (ok : bool) (s : step) (st : state) : state * res
         end
       else (st, Ok)
   | Remove c tg =>
-      if cond_holds c ok then
+      if cond_holds c ok (pend st) then
         match handle st with
         | Some _ => (st, Err ModelStuck)
         | None =>
@@ -226,6 +233,7 @@ Definition exec_step (E : env) (ok : bool) (s : step) (st : state) : state * res
                  end
         end
       else (st, Ok)
+  | Forget c => (if cond_holds c ok (pend st) then with_pend st false else st, Ok)
   | HandleWarnings => if a_post (e_adv E) then (st, Err WarningRaised) else (st, Ok)
   end.
 
@@ -242,7 +250,9 @@ Definition is_ok (r : result) : bool := match r with Ok => true | Err _ => false
 
 (* with new_file.open("w") as fh: <body>  ;  <post>
    - an exception in open() propagates, __exit__ does not run;
-   - __exit__ runs after the body whatever happened; an exception raised by __exit__ replaces the
+   - __exit__ runs after the body whatever happened; its `finally` part runs whatever happened in its
+     `try` part ([ok] there: nothing is propagating, neither from the body nor from the try part);
+     an exception raised by the finally part replaces the one of the try part, which replaces the
      one of the body; __exit__ returns the (None) status of the file's own __exit__, so the body's
      exception propagates;
    - the statements after the with block run only when nothing propagated. *)
@@ -251,17 +261,17 @@ Definition run_state (w : writer) (E : env) (st0 : state) : state * result :=
   | (s1, Err e) => (s1, Err e)
   | (s1, Ok) =>
       let '(s2, r2) := exec_list E true (w_body w) s1 in
-      match exec_list E (is_ok r2) (w_exit w) s2 with
-      | (s3, Err e) => (s3, Err e)
-      | (s3, Ok) =>
-          match r2 with
-          | Err e => (s3, Err e)
-          | Ok => exec_list E true (w_post w) s3
-          end
+      let '(s3, r3) := exec_list E (is_ok r2) (w_exit w) s2 in
+      let '(s4, r4) := exec_list E (is_ok r2 && is_ok r3) (w_final w) s3 in
+      match r4, r3, r2 with
+      | Err e, _, _ => (s4, Err e)
+      | Ok, Err e, _ => (s4, Err e)
+      | Ok, Ok, Err e => (s4, Err e)
+      | Ok, Ok, Ok => exec_list E true (w_post w) s4
       end
   end.
 
-Definition init_state (f : fsys) : state := mkstate f None [] 0 0.
+Definition init_state (f : fsys) : state := mkstate f None [] 0 0 false.
 
 Definition run_writer (w : writer) (E : env) (f : fsys) : fsys * result :=
   let '(s, r) := run_state w E (init_state f) in (fs s, r).
@@ -363,7 +373,7 @@ Definition is_gisdir s := match s with GuardIsDir => true | _ => false end.
 Definition guards_first (w : writer) : bool :=
   existsb is_gexists (leading_guards (w_open w)) && existsb is_gisdir (leading_guards (w_open w)).
 
-Definition all_steps (w : writer) : list step := w_open w ++ w_body w ++ w_exit w ++ w_post w.
+Definition all_steps (w : writer) : list step := w_open w ++ w_body w ++ w_exit w ++ w_final w ++ w_post w.
 
 (* no step opens or removes the destination itself *)
 Definition no_dest_step (s : step) : bool :=
@@ -373,37 +383,18 @@ Definition dest_only_written_by_replace (w : writer) : bool := forallb no_dest_s
 Definition is_replace (s : step) : bool := match s with Replace _ => true | _ => false end.
 Definition replace_guarded (s : step) : bool :=
   match s with Replace IfOk => true | Replace _ => false | _ => true end.
-(* os.replace only happens in __exit__, and only when no exception is propagating *)
+(* os.replace only happens in the try part of __exit__, and only when no exception is propagating *)
 Definition replace_only_on_success (w : writer) : bool :=
-  forallb (fun s => negb (is_replace s)) (w_open w ++ w_body w ++ w_post w)
+  forallb (fun s => negb (is_replace s)) (w_open w ++ w_body w ++ w_final w ++ w_post w)
   && forallb replace_guarded (w_exit w).
 
-(* steps that cannot raise and do nothing when no exception is propagating *)
-Definition quiet_when_ok (s : step) : bool :=
-  match s with
-  | CopyMode => true
-  | Replace c => negb (cond_holds c true)
-  | Remove c _ => negb (cond_holds c true)
-  | _ => false
-  end.
-Fixpoint after_first_replace (l : list step) : option (list step) :=
-  match l with
-  | [] => None
-  | Replace c :: r => if cond_holds c true then Some r else after_first_replace r
-  | _ :: r => after_first_replace r
-  end.
-(* once the destination has been replaced nothing in __exit__ can raise any more *)
-Definition nothing_fails_after_replace (w : writer) : bool :=
-  match after_first_replace (w_exit w) with
-  | None => true
-  | Some r => forallb quiet_when_ok r
-  end.
 Definition is_post_step (s : step) : bool := match s with HandleWarnings | CopyMode => true | _ => false end.
 Definition post_only_warnings (w : writer) : bool := forallb is_post_step (w_post w).
 
-Definition atomic_ok (w : writer) : bool :=
-  dest_only_written_by_replace w && replace_only_on_success w
-  && nothing_fails_after_replace w && post_only_warnings w.
+(* every write goes to the temporary, which only os.replace moves over the destination *)
+Definition writes_go_to_temp_then_replace (w : writer) : bool :=
+  dest_only_written_by_replace w && replace_only_on_success w && post_only_warnings w.
+Definition atomic_ok := writes_go_to_temp_then_replace.   (* former name *)
 
 (* open("w") = guards, then the temporary is opened, then at most mode copying *)
 Fixpoint drop_guards (l : list step) : list step :=
@@ -423,6 +414,8 @@ Definition step_eqb (a b : step) : bool :=
   | Close, Close => true
   | Replace IfOk, Replace IfOk => true
   | Remove IfErr Temp, Remove IfErr Temp => true
+  | Remove IfTemp Temp, Remove IfTemp Temp => true
+  | Forget IfOk, Forget IfOk => true
   | _, _ => false
   end.
 Fixpoint step_list_eqb (a b : list step) : bool :=
@@ -431,9 +424,25 @@ Fixpoint step_list_eqb (a b : list step) : bool :=
   | x :: r, y :: s => step_eqb x y && step_list_eqb r s
   | _, _ => false
   end.
-(* __exit__ = close; on success move the temporary over the destination; otherwise remove it *)
+(* the two shapes of __exit__ the proofs know:
+   plain:        close; on success move the temporary over the destination; otherwise remove it
+   try/finally:  try: close; on success move and forget the temporary
+                 finally: if the temporary has not been forgotten, remove it *)
 Definition exit_shape : list step := [Close; Replace IfOk; Remove IfErr Temp].
-Definition temp_removed_on_failure (w : writer) : bool := step_list_eqb (w_exit w) exit_shape.
+Definition exit_try_shape : list step := [Close; Replace IfOk; Forget IfOk].
+Definition exit_final_shape : list step := [Remove IfTemp Temp].
+Definition exit_plain (w : writer) : bool :=
+  step_list_eqb (w_exit w) exit_shape && step_list_eqb (w_final w) [].
+Definition exit_try_finally (w : writer) : bool :=
+  step_list_eqb (w_exit w) exit_try_shape && step_list_eqb (w_final w) exit_final_shape.
+(* the temporary is removed when the body of the with block raised *)
+Definition temp_removed_on_failure (w : writer) : bool := exit_plain w || exit_try_finally w.
+(* ... and also when the close or the move itself raised *)
+Definition cleanup_total (w : writer) : bool := exit_try_finally w.
+
+(* which crash points can leave the temporary behind *)
+Definition may_leave_temp (w : writer) (a : adversary) : bool :=
+  if cleanup_total w then a_remove a else a_close a || a_replace a || a_remove a.
 
 (* the body writes the blocks in MCNP's order, nothing else, through fh.write only *)
 Definition body_blocks_in_order (w : writer) : bool := piece_list_eqb (pieces (w_body w)) canonical_pieces.
@@ -461,8 +470,17 @@ Definition temp_name_distinct (w : writer) : bool :=
   Nat.eqb (List.length (filter is_base (w_temp w))) 1 && existsb nonempty_lit (w_temp w).
 
 Definition writer_ok (w : writer) : bool :=
-  guards_first w && atomic_ok w && opens_temp_after_guards w && temp_removed_on_failure w
+  guards_first w && writes_go_to_temp_then_replace w && opens_temp_after_guards w && temp_removed_on_failure w
   && body_blocks_in_order w && children_before_terminator w && temp_name_distinct w.
+
+(* not a condition of the theorems, a diagnosis: every object is formatted before the first step
+   that touches the file system.  False of the current source (objects are formatted one by one
+   while the temporary is open), which is harmless because nothing is written to the destination
+   before os.replace; reported in the evidence *)
+Definition is_loop (s : step) : bool := match s with Loop _ _ => true | _ => false end.
+Definition all_formats_precede_open (w : writer) : bool :=
+  forallb (fun s => negb (is_loop s)) (w_body w) && negb (existsb is_loop (w_exit w ++ w_final w ++ w_post w)).
+
 
 (* ---------------------------------------------------------------- wire *)
 (* linear-time splitter (Wire.split_on is quadratic in the length of a field) *)
